@@ -39,8 +39,10 @@ open TonVerif
 
 /-! ### byte-level layer -/
 
+/-- the first `n` bytes and the rest; `none` if fewer than `n` bytes are left (cost O(n), not O(|bs|)) -/
 def takeN (n : Nat) (bs : Bytes) : Option (Bytes × Bytes) :=
-  if n ≤ bs.length then some (bs.take n, bs.drop n) else none
+  let a := bs.take n
+  if a.length == n then some (a, bs.drop n) else none
 
 /-- big-endian unsigned integer of `n` bytes -/
 def uintBE (n : Nat) (bs : Bytes) : Option (Nat × Bytes) :=
@@ -67,7 +69,8 @@ def SRec.levelMask (r : SRec) : Nat := r.d1 / 32
 /-- remove the completion tag: trailing zeros and the last one bit -/
 def stripTag (bits : Bits) : Bits := ((bits.reverse.dropWhile (fun b => !b)).drop 1).reverse
 
-def readCell (size : Nat) (bs : Bytes) : Option (SRec × Bytes) := do
+/-- one cell record: the record, its length in bytes, the remaining input -/
+def readCell (size : Nat) (bs : Bytes) : Option (SRec × Nat × Bytes) := do
   let (d1, r) ← uintBE 1 bs
   let (d2, r) ← uintBE 1 r
   if d1 % 8 > 4 then none else
@@ -80,15 +83,15 @@ def readCell (size : Nat) (bs : Bytes) : Option (SRec × Bytes) := do
     else some (bytesToBits data))
   if d1 / 8 % 2 == 1 && bits.length < 8 then none else
   let (refs, r) ← uintsBE (d1 % 8) size r
-  pure (⟨d1, bits, refs⟩, r)
+  pure (⟨d1, bits, refs⟩, 2 + (d2 / 2 + d2 % 2) + (d1 % 8) * size, r)
 
 /-- exactly `count` records filling the input; each with its length in bytes -/
 def readCells : Nat → Nat → Bytes → Option (List (SRec × Nat))
   | 0, _, bs => if bs.isEmpty then some [] else none
   | k + 1, size, bs => do
-    let (c, r) ← readCell size bs
+    let (c, len, r) ← readCell size bs
     let cs ← readCells k size r
-    pure ((c, bs.length - r.length) :: cs)
+    pure ((c, len) :: cs)
 
 def endOffsetsFrom (acc : Nat) : List Nat → List Nat
   | [] => []
@@ -98,8 +101,10 @@ def endOffsetsFrom (acc : Nat) : List Nat → List Nat
 def endOffsets (lens : List Nat) : List Nat := endOffsetsFrom 0 lens
 
 /-- references strictly forward and in range -/
-def refsForward (recs : List SRec) : Bool :=
-  recs.zipIdx.all (fun (ri : SRec × Nat) => ri.1.refs.all (fun j => ri.2 < j && j < recs.length))
+def refsForwardN (n : Nat) (recs : List SRec) : Bool :=
+  recs.zipIdx.all (fun (ri : SRec × Nat) => ri.1.refs.all (fun j => ri.2 < j && j < n))
+
+def refsForward (recs : List SRec) : Bool := refsForwardN recs.length recs
 
 /-- CRC-32C, little-endian, as a byte list -/
 def crc32cLE (body : Bytes) : Bytes :=
